@@ -624,6 +624,13 @@ class _LB:
             if cl is not None and cl.get('k') == 'Closure':
                 return self.lb(fn, cl['body'], depth + 1)
             return None
+        if k in ('Call', 'MCall') and (H.callee(e) or e.get('def')):
+            f2 = self.L.fn(H.callee(e) or '?') or self.L.fn(e.get('def') or '?')
+            if f2 is not None and f2.get('body') is not None and f2.get('dk') in ('Fn', 'AssocFn'):
+                vals = [self.lb(f2, v, depth + 1) for v in H.return_exprs(f2['body']) if not H.diverges_always(v)]
+                return None if not vals or any(v is None for v in vals) else min(vals)
+        if k == 'MCall' and e.get('m') == 'clamp' and len(e['args']) == 2:
+            return self.lb(fn, e['args'][0], depth + 1)
         if k == 'MCall' and e.get('m') == 'unwrap_or' and len(e['args']) == 1:
             a, s = self.lb(fn, e['args'][0], depth + 1), self.lb_some(fn, e['recv'], depth + 1)
             return None if a is None or s is None else min(a, s)
